@@ -1569,6 +1569,13 @@ int save_object (object_t * ob, const char *file, int save_zeros) {
       return 0;
     }
 
+  if (strlen (file) > 250)
+    {
+      /* the temporary file would get a truncated name, which is not the path the master approved */
+      free_string_svalue (sp--);
+      return 0;
+    }
+
   /*
    * Write the save-files to different directories, just in case
    * they are on different file systems.
